@@ -265,6 +265,39 @@ func caseNumbers(c *core.Ctx) {
 	for _, v := range boundaryFloats {
 		exprOps(c, &stmt.NumberLiteral{Val: v}, "number-text-roundtrip")
 	}
+	// round 12: one literal per (significant decimal digits 1..17) x (decimal exponent -12..24), each
+	// inside a different node shape, so a float writer that is exact only up to some digit count or
+	// only inside some magnitude window has a failing input whatever Marshal path carries the number
+	for d := 1; d <= 17; d++ {
+		for e := -12; e <= 24; e += 3 {
+			digits := "1234567891234567891"[:d]
+			if d > 1 {
+				digits = digits[:1] + "." + digits[1:]
+			}
+			v, err := strconv.ParseFloat(fmt.Sprintf("%se%d", digits, e+d%3), 64)
+			if err != nil {
+				continue
+			}
+			if (d+e)%2 != 0 {
+				v = -v
+			}
+			var n stmt.Expr = &stmt.NumberLiteral{Val: v}
+			switch (d + (e+12)/3) % 6 {
+			case 1:
+				n = &stmt.ParenExpr{Expr: n}
+			case 2:
+				n = &stmt.CallExpr{FuncType: 9, Params: []stmt.Expr{&stmt.FieldExpr{Name: "f"}, n}}
+			case 3:
+				n = &stmt.BinaryExpr{Left: n, Operator: stmt.MUL, Right: &stmt.FieldExpr{Name: "f"}}
+			case 4:
+				n = &stmt.SelectItem{Expr: &stmt.BinaryExpr{Left: &stmt.FieldExpr{Name: "f"}, Operator: stmt.DIV, Right: n}, Alias: "a"}
+			case 5:
+				n = &stmt.OrderByExpr{Expr: &stmt.CallExpr{FuncType: 9, Params: []stmt.Expr{n}}, Desc: true}
+			}
+			c.Branch(fmt.Sprintf("number-digits-%02d", d))
+			exprOps(c, n, "number-text-roundtrip")
+		}
+	}
 	var params []stmt.Expr
 	for _, v := range boundaryFloats[:12] {
 		params = append(params, &stmt.NumberLiteral{Val: v})
